@@ -26,7 +26,7 @@ func init() {
 		Title: "Mann-Whitney exact test: U is the pair count, P the exact permutation tail",
 		Run:   c01Run,
 		Kinds: []core.Kind{core.ReplayOf("class", c01Check)},
-		Rule: "every (tie vector T, allocation r) with n1+n2 <= bound, i.e. every pair of samples up to order and strictly increasing relabelling, each in 3 arrangements x 3 alternatives; " +
+		Rule: "every (tie vector T, allocation r) with n1+n2 <= bound, i.e. every pair of samples up to order and strictly increasing relabelling, each in 3 arrangements x 3 alternatives, plus two signed-zero materialisations of a tied class (-0 and +0 mixed) and, for n1+n2<=12, four pairs of overlapping windows of one series (aliased arguments); " +
 			"plus complete structured families up to 50+50 untied / 25+25 tied; oracle = pair-count U and exact big.Int tail probabilities. Non-trivial: a tie is present or both tails are non-empty.",
 		Technique: "bounded-exhaustive input enumeration of the real MannWhitneyUTest against an exact permutation-distribution model",
 		Assumptions: []string{
@@ -162,6 +162,135 @@ func c01Check(c *C01Case, r *core.Rec) {
 			r.Fail("P-"+alt.String(), "x1=%v x2=%v alt=%v: P=%v, exact %v (U=%v)", xs[0], xs[1], alt, res.P, want, float64(twoU)/2)
 		}
 	}
+	c01SignedZeros(c, r, u, twoU)
+	if n1+n2 <= 12 {
+		c01Aliased(x1a, x2a, r)
+	}
+}
+
+// c01SignedZeros re-materialises the class so that a tied rank class sits at
+// zero, written with both signs (-0 == +0 is a tie like any other): U and P
+// must be those of the class.
+func c01SignedZeros(c *C01Case, r *core.Rec, u *ref.UNull, twoU int) {
+	z := -1
+	for k, t := range c.T { // prefer a tied class shared by both samples
+		if t > 1 && c.R[k] > 0 && c.R[k] < t {
+			z = k
+			break
+		}
+	}
+	for k, t := range c.T {
+		if z < 0 && t > 1 {
+			z = k
+		}
+	}
+	if z < 0 {
+		return
+	}
+	negz := math.Copysign(0, -1)
+	for variant := 0; variant < 2; variant++ {
+		var x1, x2 []float64
+		for k, t := range c.T {
+			for i := 0; i < t; i++ {
+				v := float64(k - z)
+				if k == z {
+					// variant 0: sample 1 holds -0 and sample 2 +0 (alternating within a
+					// sample when only one side has zeros); variant 1: the opposite.
+					neg := (i < c.R[k]) == (variant == 0)
+					if c.R[k] == 0 || c.R[k] == t {
+						neg = (i+variant)%2 == 0
+					}
+					if neg {
+						v = negz
+					} else {
+						v = 0
+					}
+				}
+				if i < c.R[k] {
+					x1 = append(x1, v)
+				} else {
+					x2 = append(x2, v)
+				}
+			}
+		}
+		x1, x2 = riffle(x1), riffle(x2)
+		for _, alt := range c01Alts {
+			res, err := stats.MannWhitneyUTest(x1, x2, alt)
+			r.Trans(1)
+			if err != nil || res == nil {
+				r.Fail("signed-zero-error", "x1=%v x2=%v: unexpected error %v", x1, x2, err)
+				continue
+			}
+			if res.U*2 != float64(twoU) {
+				r.Fail("signed-zero-U", "x1=%v x2=%v (zeros of both signs are equal values): U=%v, pair count gives %v", x1, x2, res.U, float64(twoU)/2)
+				continue
+			}
+			want := mwExactExpected(u, twoU, alt)
+			if r.Err("P-"+alt.String(), math.Abs(res.P-want), 1e-9) {
+				continue
+			}
+			if alt == stats.LocationDiffers && math.Abs(res.P-mwKnownTwoSided(u, twoU)) <= 1e-9 {
+				r.KnownHit("mw-two-sided-asym", "x1=%v x2=%v two-sided: P=%v, exact %v", x1, x2, res.P, want)
+				continue
+			}
+			r.Fail("signed-zero-P-"+alt.String(), "x1=%v x2=%v alt=%v (zeros of both signs): P=%v, exact %v", x1, x2, alt, res.P, want)
+		}
+	}
+}
+
+// c01Aliased passes overlapping windows of one series as the two samples: the
+// result must be that of the data as passed (oracle on independent copies) and
+// the series must be left alone.
+func c01Aliased(x1a, x2a []float64, r *core.Rec) {
+	series := append(riffle(x1a), riffle(x2a)...)
+	N := len(series)
+	if N < 3 {
+		return
+	}
+	snap := snapFull(series)
+	for _, w := range [][4]int{{0, N - 1, 1, N}, {0, (N + 2) / 2, (N - 1) / 2, N}, {1, N, 0, N - 1}, {0, N, 0, N}} {
+		w1, w2 := series[w[0]:w[1]], series[w[2]:w[3]]
+		c1, c2 := append([]float64{}, w1...), append([]float64{}, w2...)
+		T, _ := tieVector(c1, c2)
+		if len(T) < 2 {
+			continue
+		}
+		u := c03Null(len(c1), len(c2), T)
+		twoU := ref.PairU(c1, c2)
+		for _, alt := range c01Alts {
+			res, err := stats.MannWhitneyUTest(w1, w2, alt)
+			r.Trans(1)
+			if !snap.same(series) {
+				r.Fail("aliased-modified", "series %v was modified by a call on its windows [%d:%d] and [%d:%d]", c01sn(snap), w[0], w[1], w[2], w[3])
+				return
+			}
+			if err != nil || res == nil {
+				r.Fail("aliased-error", "windows %v %v: unexpected error %v", c1, c2, err)
+				continue
+			}
+			if res.U*2 != float64(twoU) {
+				r.Fail("aliased-U", "overlapping windows x1=%v x2=%v of one series: U=%v, pair count gives %v", c1, c2, res.U, float64(twoU)/2)
+				continue
+			}
+			want := mwExactExpected(u, twoU, alt)
+			if r.Err("P-"+alt.String(), math.Abs(res.P-want), 1e-9) {
+				continue
+			}
+			if alt == stats.LocationDiffers && math.Abs(res.P-mwKnownTwoSided(u, twoU)) <= 1e-9 {
+				r.KnownHit("mw-two-sided-asym", "x1=%v x2=%v two-sided: P=%v, exact %v", c1, c2, res.P, want)
+				continue
+			}
+			r.Fail("aliased-P-"+alt.String(), "overlapping windows x1=%v x2=%v alt=%v: P=%v, exact %v", c1, c2, alt, res.P, want)
+		}
+	}
+}
+
+func c01sn(s bitsnap) []float64 {
+	out := make([]float64, len(s.bits))
+	for i, b := range s.bits {
+		out[i] = math.Float64frombits(b)
+	}
+	return out
 }
 
 func c01Run(c *core.Ctx) {
